@@ -1149,7 +1149,11 @@ pub fn run_check(prop: &str, tier: &str, workloads_override: Option<u64>, dump: 
         if total.not_judgeable > 0 && prop != "C21" {
             println!("note: {} runs could not be judged because they did not terminate normally (see C21)", total.not_judgeable);
         }
-        println!("{prop}: property held on everything explored");
+        if known_lines.is_empty() {
+            println!("{prop}: property held on everything explored");
+        } else {
+            println!("{prop}: no violation besides the {} known finding(s) listed above", known_lines.len());
+        }
         0
     } else {
         for l in &lines {
